@@ -24,6 +24,12 @@ REPLAY_DIR = os.path.join(BUILD_DIR, "scratch", "replays") if _SCRATCH else os.p
 KNOWN_FINDINGS = os.path.join(VERIF, "known_findings.json")
 NPROC = int(os.environ.get("VERIF_NPROC", "16"))
 
+# Time budget of one check invocation (seconds; VERIF_TIME_BUDGET overrides; the thorough tier defaults to 2.5 h, the
+# quick tier has none).  When it is exhausted run_pool stops handing out work units; the units left over are counted
+# and the evidence file says exhaustive=false and names the cap - a capped run is never reported as complete.
+BUDGET = {"deadline": None, "seconds": None, "skipped": 0}
+THOROUGH_DEFAULT_BUDGET = 9000.0
+
 
 def assert_repo_tensora():
     """The checks must exercise /repo's working tree, nothing else."""
@@ -144,11 +150,15 @@ def run_pool(modname, fname, args, env=None, nproc=None, progress=None, task_tim
 
     def give(conn):
         nonlocal next_idx, done
-        if stop[0]:
+        over = BUDGET["deadline"] is not None and time.time() > BUDGET["deadline"]
+        if stop[0] or over:
+            why = "fail-fast: a violation was already found" if stop[0] else "time budget exhausted"
             while next_idx < n:
-                results[next_idx] = ("skipped", "fail-fast: a violation was already found")
+                results[next_idx] = ("skipped", why)
                 next_idx += 1
                 done += 1
+                if not stop[0]:
+                    BUDGET["skipped"] += 1
         if next_idx < n:
             workers[conn][1] = next_idx
             workers[conn][2] = time.time()
@@ -318,7 +328,11 @@ class Run:
         self.coverage: dict = {}
         self.notes: list[str] = []
         self._seen_sigs = set()
-        print(f"[{self.pid}] tier={tier} seed={seed} nproc={NPROC}", flush=True)
+        budget = os.environ.get("VERIF_TIME_BUDGET")
+        seconds = float(budget) if budget else (THOROUGH_DEFAULT_BUDGET if tier == "thorough" else None)
+        BUDGET.update(deadline=(self.t0 + seconds) if seconds else None, seconds=seconds, skipped=0)
+        print(f"[{self.pid}] tier={tier} seed={seed} nproc={NPROC}" + (f" time budget {seconds:.0f}s" if seconds else ""),
+              flush=True)
 
     # a finding: {"signature": {...}, "what": str, "case": {...}}
     def report(self, finding: dict):
@@ -366,6 +380,13 @@ class Run:
         if extra:
             cov.update(jsonable(extra))
         cov.update(jsonable(self.coverage))
+        if BUDGET["skipped"]:
+            cov["exhaustive"] = False
+            cov["time_budget"] = {"seconds": BUDGET["seconds"], "work_units_not_explored": BUDGET["skipped"],
+                                  "meaning": "the time budget was exhausted: the work units counted here were not explored; "
+                                             "everything else reported in this file was explored completely"}
+            print(f"[{self.pid}] time budget of {BUDGET['seconds']:.0f}s exhausted: {BUDGET['skipped']} work unit(s) not "
+                  "explored (evidence says exhaustive=false)", flush=True)
         if self.notes:
             cov["notes"] = self.notes
         cov["known_findings_hit"] = {
